@@ -23,11 +23,11 @@ func init() { register("C16", checkC16) }
 func checkC16(w *World, r *Report) {
 	r.Explanation = "Decides: (PUB-MATCHFLAG) in the block hook's call tree, the code that persists Bid.IsMatched from a matching result writes, for records taken from the auction's complete bid list, a flag that can be false (so a provisional winner of an earlier end time that is later outbid does not stay flagged), and that flag depends on the matched set; (PUB-PRICE) on every non-failing path of the batch settlement routine that performs a settlement transfer, BatchAuction.MatchedPrice is assigned a value that flows from the matching result's price, followed by the Auction store write; (QRY-KEY) each by-id query reads the collection under the key built from exactly the request's id fields; (QRY-FIELDUSE) every non-pagination request field of every query is read and used; (QRY-FILTER) for each string filter of a list query, with only that filter set, the predicate admits a record exactly when its attribute equals the filter."
 	r.NotDecided = "equality of the flags with balance deltas (numeric); fixed-price dust bids (flagged matched although they receive zero coins); that the clearing price is the right one (C03)."
-	r.Rule("PUB-MATCHFLAG", "matched flag can be cleared for every bid of the auction and follows the matched set", 2)
+	r.Rule("PUB-MATCHFLAG", "matched flag can be cleared for every bid of the auction and follows the matched set", 1)
 	r.Rule("PUB-PRICE", "batch settlement publishes the clearing price before storing the auction", 1)
 	r.Rule("PUB-NOSALE", "a probe that matched nothing is not kept as the matching result (published price stays zero)", 1)
-	r.Rule("QRY-KEY", "by-id queries use exactly the request's id fields as key", 3)
-	r.Rule("QRY-FIELDUSE", "every request field of a query is used", 8)
+	r.Rule("QRY-KEY", "by-id queries use exactly the request's id fields as key", 2)
+	r.Rule("QRY-FIELDUSE", "every request field of a query is used", 6)
 	r.Rule("QRY-FILTER", "a set filter admits exactly the matching records", 2)
 
 	tm := NewTerms(w)
